@@ -34,6 +34,90 @@ theorem C13_counterexample :
     (run { goodFacts with startTLS := .goroutine } init [.start, .head 1, .read 1, .inline 1]) = none ∧
     (run goodFacts init [.start, .head 1, .read 1, .spawn 1, .reqStart 1, .head 2]).isSome = true := by decide
 
+
+/-! ### "completely": requests read after the upgrade answer through the upgraded writer -/
+
+/-- the connection writer's generation never goes back -/
+theorem writerGen_mono_step (F : Facts) (s s' : St) (e : Ev) (h : step F s e = some s') : s.writerGen ≤ s'.writerGen := by
+  unfold step at h
+  simp only at h
+  repeat' split at h
+  all_goals first
+    | contradiction
+    | (cases h; done)
+    | (simp only [Option.some.injEq] at h; subst h; simp)
+
+theorem writerGen_mono (F : Facts) (es : List Ev) (s s' : St) (h : run F s es = some s') : s.writerGen ≤ s'.writerGen := by
+  induction es generalizing s with
+  | nil => simp [run] at h; subst h; exact Nat.le_refl _
+  | cons e es ih =>
+    simp only [run] at h
+    cases hs : step F s e with
+    | none => simp [hs] at h
+    | some s1 =>
+      simp [hs] at h
+      exact Nat.le_trans (writerGen_mono_step F s s1 e hs) (ih s1 h)
+
+/-- a step only ever appends to the record of writers, and what it appends is the writer the
+    connection has at that moment -/
+theorem writers_step (F : Facts) (hF : F.writerPerIteration = true) (s s' : St) (e : Ev) (h : step F s e = some s') :
+    s'.writers = s.writers ∨ ∃ r, e = .head r ∧ s'.writers = s.writers ++ [(r, s.writerGen)] := by
+  unfold step at h
+  simp only at h
+  repeat' split at h
+  all_goals first
+    | contradiction
+    | (cases h; done)
+    | (simp only [Option.some.injEq] at h; subst h; left; rfl)
+    | (simp only [Option.some.injEq] at h; subst h; right; exact ⟨_, rfl, by simp [writerGenFor, hF]⟩)
+
+/-- every writer recorded during a run from state `s` wraps a generation at least `s.writerGen` -/
+theorem writers_run (F : Facts) (hF : F.writerPerIteration = true) (es : List Ev) (s s' : St) (h : run F s es = some s') :
+    ∃ added, s'.writers = s.writers ++ added ∧ ∀ p ∈ added, s.writerGen ≤ p.2 := by
+  induction es generalizing s with
+  | nil => simp [run] at h; subst h; exact ⟨[], by simp, by simp⟩
+  | cons e es ih =>
+    simp only [run] at h
+    cases hs : step F s e with
+    | none => simp [hs] at h
+    | some s1 =>
+      simp [hs] at h
+      obtain ⟨added, h1, h2⟩ := ih s1 h
+      have hm := writerGen_mono_step F s s1 e hs
+      rcases writers_step F hF s s1 e hs with hw | ⟨r, _, hw⟩
+      · exact ⟨added, by rw [h1, hw], fun p hp => Nat.le_trans hm (h2 p hp)⟩
+      · refine ⟨(r, s.writerGen) :: added, by rw [h1, hw]; simp, ?_⟩
+        intro p hp
+        simp only [List.mem_cons] at hp
+        rcases hp with rfl | hp
+        · exact Nat.le_refl _
+        · exact Nat.le_trans hm (h2 p hp)
+
+/-- **After the upgrade every response goes through the upgraded writer.** Whatever happened
+    before and during the StartTLS handler (which swaps the connection's reader and writer on
+    the connection goroutine, event `init`), every request numbered after the handler returned
+    (`inlinedone r`) gets a ResponseWriter that wraps the connection writer of a generation at
+    least as new as the one installed by the swap - never the plaintext writer of before. -/
+theorem C13_tunnel_writer (F : Facts) (hF : F.writerPerIteration = true) (pre post : List Ev) (r : Nat) (m s : St)
+    (h1 : run F init (pre ++ [.inlinedone r]) = some m) (h2 : run F m post = some s) :
+    ∃ added, s.writers = m.writers ++ added ∧ ∀ p ∈ added, m.writerGen ≤ p.2 :=
+  writers_run F hF post m s h2
+
+theorem C13_tunnel_writer_current (pre post : List Ev) (r : Nat) (m s : St)
+    (h1 : run Gldap.Generated.connFacts init (pre ++ [.inlinedone r]) = some m) (h2 : run Gldap.Generated.connFacts m post = some s) :
+    ∃ added, s.writers = m.writers ++ added ∧ ∀ p ∈ added, m.writerGen ≤ p.2 :=
+  C13_tunnel_writer _ (by decide) pre post r m s h1 h2
+
+/-- why the writer must be created inside the loop: created once when the loop is entered, a
+    request read after the swap (generation 2) would still answer through generation 1 -/
+theorem C13_counterexample_stale_writer :
+    ((run { goodFacts with writerPerIteration := false } init
+        [.init, .start, .head 1, .read 1, .inline 1, .init, .inlinedone 1, .head 2]).map (fun s => (s.writerGen, s.writers))) =
+      some (2, [(1, 1), (2, 1)]) ∧
+    ((run goodFacts init
+        [.init, .start, .head 1, .read 1, .inline 1, .init, .inlinedone 1, .head 2]).map (fun s => (s.writerGen, s.writers))) =
+      some (2, [(1, 1), (2, 2)]) := by decide
+
 /-- non-vacuity: StartTLS as second request; the swap (`init`) happens inside the handler -/
 example : (run goodFacts init [.init, .start, .head 1, .read 1, .spawn 1, .head 2, .read 2, .inline 2, .reqStart 1,
     .init, .inlinedone 2, .head 3]).map (fun s => (s.phase, s.writerGen)) = some (.reading 3, 2) := by decide
